@@ -55,7 +55,12 @@ func isNewHelper(g *ssa.Function) bool {
 	if v, ok := newHelperMemo[g]; ok {
 		return v
 	}
-	r := len(g.Blocks) > 0 && g.Parent() == nil && g.Synthetic == "" && IsOwn(g) && IsProd(g) && len(knownFuncsTxt) > 100 && !knownFunc(FuncKey(g))
+	r := len(g.Blocks) > 0 && g.Synthetic == "" && IsOwn(g) && IsProd(g) && len(knownFuncsTxt) > 100 && !knownFunc(FuncKey(g))
+	if r && g.Parent() != nil {
+		// a function literal counts only when it is called on the spot (func(){…}()), never
+		// stored, passed, deferred or started as a goroutine
+		r = immediatelyInvoked(g)
+	}
 	newHelperMemo[g] = r
 	return r
 }
@@ -67,10 +72,48 @@ func newHelperCallee(in ssa.Instruction) *ssa.Function {
 		return nil
 	}
 	g := c.Common().StaticCallee()
+	if g == nil {
+		if mc, ok := c.Common().Value.(*ssa.MakeClosure); ok {
+			g, _ = mc.Fn.(*ssa.Function)
+		}
+	}
 	if isNewHelper(g) {
 		return g
 	}
 	return nil
+}
+
+// immediatelyInvoked: every use of the function literal g in its parent is a plain call of it.
+func immediatelyInvoked(g *ssa.Function) bool {
+	par := g.Parent()
+	if par == nil {
+		return false
+	}
+	n := 0
+	for _, b := range par.Blocks {
+		for _, in := range b.Instrs {
+			var val ssa.Value
+			if mc, ok := in.(*ssa.MakeClosure); ok && mc.Fn == ssa.Value(g) {
+				val = mc
+			}
+			if val != nil {
+				for _, r := range *val.Referrers() {
+					c, ok := r.(*ssa.Call)
+					if !ok || c.Common().Value != val {
+						return false
+					}
+					n++
+				}
+			}
+			if c, ok := in.(ssa.CallInstruction); ok && c.Common().Value == ssa.Value(g) {
+				if _, plain := in.(*ssa.Call); !plain {
+					return false
+				}
+				n++
+			}
+		}
+	}
+	return n > 0
 }
 
 const maxHelperDepth = 4
@@ -125,6 +168,9 @@ var helpersMemo = map[*ssa.Function][]*ssa.Function{}
 
 // funcAndHelpers: root followed by the new helpers it reaches (call order, each once).
 func funcAndHelpers(root *ssa.Function) []*ssa.Function {
+	if root != nil && !isNewHelper(root) {
+		termRoot = root
+	}
 	if v, ok := helpersMemo[root]; ok {
 		return v
 	}
@@ -315,6 +361,14 @@ func tailHelper(r *ssa.Return) *ssa.Function {
 	var call *ssa.Call
 	for i, v := range r.Results {
 		var c *ssa.Call
+		// results spilled to a cell because the function defers (store; rundefers; load)
+		if ld, ok := v.(*ssa.UnOp); ok {
+			if al, ok := ld.X.(*ssa.Alloc); ok {
+				if sv := lastStoreInBlock(al, ld); sv != nil {
+					v = sv
+				}
+			}
+		}
 		switch x := v.(type) {
 		case *ssa.Call:
 			c = x
@@ -458,4 +512,102 @@ func edgeHelperFacts(e Edge, conv bool) []Fact {
 		out = append(out, f)
 	}
 	return out
+}
+
+// blocksDeep: the blocks of fn followed by those of the new helpers it reaches.
+func blocksDeep(fn *ssa.Function) []*ssa.BasicBlock {
+	if fn == nil {
+		return nil
+	}
+	hs := funcAndHelpers(fn)
+	if len(hs) == 1 {
+		return fn.Blocks
+	}
+	var out []*ssa.BasicBlock
+	for _, f := range hs {
+		out = append(out, f.Blocks...)
+	}
+	return out
+}
+
+var subjectsMemo []*ssa.Function
+
+// Subjects: the functions a whole-program rule looks at one by one. A new helper that is
+// called from production code is not a subject of its own: what it does is attributed to
+// the functions that call it (blocksDeep, CallsIn, DBOps, …).
+func (p *Program) Subjects() []*ssa.Function {
+	if subjectsMemo != nil {
+		return subjectsMemo
+	}
+	for _, fn := range p.OwnFuncs {
+		if isNewHelper(fn) && len(callSitesOfHelper(fn)) > 0 {
+			continue
+		}
+		subjectsMemo = append(subjectsMemo, fn)
+	}
+	return subjectsMemo
+}
+
+// valueRoot follows a value to where it comes from across new-helper boundaries: a
+// parameter of a new helper with one call site is the argument passed there; the result of
+// a call to a new helper is the value the helper returns.
+func valueRoot(v ssa.Value) ssa.Value {
+	for i := 0; i < 2*maxHelperDepth && v != nil; i++ {
+		v = stripConv(v)
+		if pr, ok := v.(*ssa.Parameter); ok && isNewHelper(pr.Parent()) {
+			sites := callSitesOfHelper(pr.Parent())
+			idx := -1
+			for k, q := range pr.Parent().Params {
+				if q == pr {
+					idx = k
+				}
+			}
+			if len(sites) == 1 && idx >= 0 && idx < len(sites[0].Common().Args) {
+				v = sites[0].Common().Args[idx]
+				continue
+			}
+			return v
+		}
+		if o := valueOrigin(v); o != v {
+			v = o
+			continue
+		}
+		return v
+	}
+	return v
+}
+
+// lastStoreInBlock: the value most recently stored to cell al before instruction `before`
+// within the same block.
+func lastStoreInBlock(al *ssa.Alloc, before ssa.Instruction) ssa.Value {
+	b := before.Block()
+	for k := instrIndex(before) - 1; k >= 0; k-- {
+		if st, ok := b.Instrs[k].(*ssa.Store); ok && st.Addr == ssa.Value(al) {
+			return st.Val
+		}
+	}
+	return nil
+}
+
+// eachCallCtx visits every call of fn and, context-sensitively, of the new helpers it calls:
+// lift rewrites a term of the function the call sits in into fn's vocabulary for exactly
+// the chain of call sites that led there (unlike T, which gives up when a helper has several
+// call sites).
+func eachCallCtx(fn *ssa.Function, visit func(call ssa.CallInstruction, lift func(*Term) *Term, inLoop bool)) {
+	var rec func(f *ssa.Function, lift func(*Term) *Term, inLoop bool, depth int)
+	rec = func(f *ssa.Function, lift func(*Term) *Term, inLoop bool, depth int) {
+		tb := newTB()
+		for _, call := range AllCalls(f) {
+			loop := inLoop || reachable2(call.Block(), call.Block())
+			visit(call, lift, loop)
+			if g := newHelperCallee(call); g != nil && g != f && depth < maxHelperDepth {
+				var args []*Term
+				for _, a := range call.Common().Args {
+					args = append(args, lift(tb.of(a, 1)))
+				}
+				rec(g, func(t *Term) *Term { return substParams(t, args) }, loop, depth+1)
+			}
+		}
+	}
+	rec(fn, func(t *Term) *Term { return t }, false, 0)
 }
